@@ -417,6 +417,36 @@ example :
 end Pipeline
 
 
+/-! ## … with the ownership check as the code has it -/
+section PipelineOwners
+open Hdl21.Pkg Hdl21.RoundTrip Hdl21.ExportWF Hdl21.ModulePipe Hdl21.Orphanage
+
+/-- **A signal owned by another module, or by none, anywhere inside a connection makes the composition refuse** — `Orphanage`
+    itself (the owner check of Orphanage.lean, compared with the real pass by the `orphanage` stream) in front of the pipeline:
+    one object in one connection of one instance whose `_parent_module` is not this module — at any depth of slices and
+    concatenations — and no module is returned. -/
+theorem foreign_owner_rejected (fuel : Nat) (ctx : PRef → Option (List (String × Nat))) (me : Nat) (name : String)
+    (signals ports : List HSig) (insts : List OInst) (i : OInst) (hi : i ∈ insts) (pc : String × OConn) (hpc : pc ∈ i.conns)
+    (o : Owner) (ho : o ∈ owners pc.2) (hne : o ≠ some me) :
+    ∃ e, pipelineO fuel ctx me name signals ports insts = .error e := by
+  have hfalse : (insts.all fun i => i.conns.all fun pc => checkConn me pc.2) = false := by
+    cases hb : (insts.all fun i => i.conns.all fun pc => checkConn me pc.2) with
+    | false => rfl
+    | true =>
+      have h1 := List.all_eq_true.mp hb i hi
+      have h2 := List.all_eq_true.mp h1 pc hpc
+      exact absurd ((checkConn_iff me pc.2).mp h2 o ho) hne
+  unfold pipelineO
+  simp [hfalse]
+
+/-- … and what gets through is over the module's own declared signals, given C18's coherence (what a module parents is what it
+    declares): the ownership hypothesis of the F1 theorems, discharged by the pass itself -/
+theorem owned_connections_are_declared (me : Nat) (ws : List (String × Nat)) (c : OConn) (s : SConn)
+    (hcoh : ∀ n w, (n, w, some me) ∈ sigObjs c → Pkg.lookup n ws = some w)
+    (hpass : checkConn me c = true) (hres : erase c = some s) : sigsOK ws s = true :=
+  erase_sigsOK me ws c s hcoh hpass hres
+end PipelineOwners
+
 /-! ## … with instance arrays -/
 section PipelineArrays
 open Hdl21.Pkg Hdl21.RoundTrip Hdl21.ExportWF Hdl21.ModulePipe Hdl21.ArrayPass
